@@ -368,6 +368,9 @@ const EXTREME_PROGS: &[&str] = &[
     "$eip .cbParams .cbSavedRegs + .cbLocals + .cbCalleeParams + = $esp .raSearchStart =",
     "$T0 $ebp 16 @ = $eip .raSearch ^ = $esp $T0 =",
     "$T0 $ebp = $eip $T0 4 + ^ = $ebp $T0 ^ = $esp $T0 8 + =",
+    // the align operator written only in the glued '=tok' spelling (`=@` is `=` then `@`): the '@' rule applies
+    "$T1 $ebp 8 $T0 4 =@ = $eip .raSearch ^ = $esp .raSearch 4 + =",
+    "$T1 .raSearchStart 4 $T0 .cbLocals =@ = $eip $T1 ^ = $esp $T1 4 + =",
 ];
 
 fn extreme_space(size_menu: &'static [u32]) -> Space {
